@@ -72,7 +72,9 @@ impl Cfg {
     }
     /// fragmentation prevention can fire under this configuration
     pub fn prevention_on(&self) -> bool {
-        self.min_cpr.map(|x| x > 0.0).unwrap_or(true) && self.nranges.map(|n| n <= 16).unwrap_or(false)
+        // with the default 128-range estimator only files of hundreds of chunks can trigger prevention:
+        // the tiny atom files never do, the production-constant (64 KiB target) megabyte files may
+        self.min_cpr.map(|x| x > 0.0).unwrap_or(true) && (self.nranges.map(|n| n <= 16).unwrap_or(false) || self.target >= 65536)
     }
     pub fn eff_max_chunks(&self) -> usize {
         self.max_xorb_chunks.unwrap_or(8 * 1024)
@@ -117,6 +119,9 @@ pub struct FileSpec {
     /// 0 none, 1 one byte, 2 sub-chunk
     pub tail: u8,
     pub feed: Feed,
+    /// raw content instead of an atom word (production-constant scenarios): (LCG seed, length,
+    /// period): the first `period` bytes of the LCG stream repeated up to `length` (period 0 = no repetition)
+    pub raw: Option<(u64, usize, usize)>,
 }
 impl FileSpec {
     pub fn new(word: &[u8], tail: u8, feed: Feed) -> FileSpec {
@@ -124,25 +129,53 @@ impl FileSpec {
             word: word.to_vec(),
             tail,
             feed,
+            raw: None,
+        }
+    }
+    pub fn raw(seed: u64, len: usize, period: usize, feed: Feed) -> FileSpec {
+        FileSpec {
+            word: vec![],
+            tail: 0,
+            feed,
+            raw: Some((seed, len, period)),
+        }
+    }
+    /// The file's bytes.
+    pub fn bytes(&self, atoms: &Atoms) -> Vec<u8> {
+        match self.raw {
+            None => atoms.build(&self.word, self.tail),
+            Some((seed, len, period)) => {
+                let block = vcore::util::Lcg::new(seed).bytes(if period == 0 { len } else { period.min(len.max(1)) });
+                if period == 0 || block.is_empty() {
+                    block
+                } else {
+                    block.iter().cycle().take(len).copied().collect()
+                }
+            },
         }
     }
     pub fn label(&self) -> String {
-        format!("{}{}", word_str(&self.word), ["", "+1", "+t"][self.tail as usize])
+        match self.raw {
+            Some((seed, len, period)) => format!("raw(seed{seed},{len}B,period{period})"),
+            None => format!("{}{}", word_str(&self.word), ["", "+1", "+t"][self.tail as usize]),
+        }
     }
     pub fn to_json(&self) -> Value {
-        json!({"word": word_str(&self.word), "tail": self.tail, "feed": self.feed.to_json()})
+        json!({"word": word_str(&self.word), "tail": self.tail, "feed": self.feed.to_json(), "raw": self.raw.map(|r| json!([r.0, r.1, r.2]))})
     }
     pub fn from_json(v: &Value) -> FileSpec {
         FileSpec {
             word: v["word"].as_str().unwrap_or("").bytes().map(|b| b - b'a').collect(),
             tail: v["tail"].as_u64().unwrap_or(0) as u8,
             feed: Feed::from_json(&v["feed"]),
+            raw: v["raw"].as_array().map(|a| (a[0].as_u64().unwrap_or(0), a[1].as_u64().unwrap_or(0) as usize, a[2].as_u64().unwrap_or(0) as usize)),
         }
     }
     pub fn pieces(&self, atoms: &Atoms) -> Vec<Vec<u8>> {
-        let bytes = atoms.build(&self.word, self.tail);
+        let bytes = self.bytes(atoms);
         match &self.feed {
             Feed::Whole => vec![bytes],
+            Feed::PerAtom if self.raw.is_some() => vec![bytes],
             Feed::PerAtom => {
                 let mut v = vec![];
                 let mut s = 0;
@@ -561,7 +594,7 @@ async fn drive_session(
         .iter()
         .map(|f| FileObs {
             label: f.label(),
-            bytes: atoms.build(&f.word, f.tail),
+            bytes: f.bytes(atoms),
             salt: spec.salt,
             ..Default::default()
         })
